@@ -4,7 +4,7 @@
 From Coq Require Import Extraction ExtrOcamlBasic.
 From E57 Require Import Base.Prelude Model.Crc Model.Device Model.PagedWriter Model.PagedReader Spec.PageSpec
   Model.BsWrite Model.BsRead Model.Record Spec.BitSpec
-  Model.QueueReader Model.PcWriter Model.FileBin Spec.FormatSpec.
+  Model.Prog Model.QueueReader Model.PcWriter Model.FileBin Spec.FormatSpec.
 
 Extraction Language OCaml.
 Separate Extraction
@@ -18,6 +18,7 @@ Separate Extraction
   BsRead.bsr_new BsRead.bsr_append BsRead.bsr_extract BsRead.bsr_available
   Record.bit_size Record.dtype_write Record.unpack_type Record.write_values Record.feed_chunks Record.value_matches
   BitSpec.spec_bit_size BitSpec.spec_stream_bytes BitSpec.spec_decode_stream BitSpec.in_range BitSpec.type_ok
+  Prog.wrun Prog.rrun Prog.wrun_spec Prog.rrun_spec
   QueueReader.raw_new QueueReader.raw_next QueueReader.qr_available
   PcWriter.get_max_packet_points PcWriter.pcw_new PcWriter.pcw_add_point PcWriter.pcw_finalize
   FileBin.writer_init FileBin.writer_finalize FileBin.items_write FileBin.item_write FileBin.blob_read FileBin.reader_open FileBin.validate_crc FileBin.raw_xml
